@@ -1,5 +1,6 @@
 # Registry of checks: property id -> harness package, test function, level.
 CHECKS = {
+    "C02": {"pkg": "checks/c02", "test": "TestC02", "level": "exploration", "shards": 16},
     "C03": {"pkg": "checks/c03", "test": "TestC03", "level": "model_checking", "shards": 16},
     "C12": {"pkg": "checks/c12", "test": "TestC12", "level": "exploration", "shards": 16},
 }
